@@ -76,12 +76,17 @@ def event(kind, path, **extra):
     m = {"t": "ev", "k": kind, "p": path}
     m.update(extra)
     ans = call(m)
+    if ans.get("a") == "raise":
+        # simulated SIGINT: the interpreter raises KeyboardInterrupt out of the interrupted system call
+        raise KeyboardInterrupt()
     return ans
 
 
 def after_event(ans):
     if ans.get("a") == "go_report":
         call({"t": "done"})
+    if ans.get("raise_after"):
+        raise KeyboardInterrupt()
 
 
 # ------------------------------------------------------------------ path classification
@@ -365,6 +370,14 @@ class SimPool:
                 os.waitpid(pid, 0)
             except ChildProcessError:
                 pass
+        if ans.get("a") == "raise":
+            # SIGINT arrived while this process waited for its pool; the workers have drained the queue
+            for i in range(n):
+                try:
+                    _real_remove(os.path.join(rdir, "r%d_%d.pkl" % (map_no, i)))
+                except OSError:
+                    pass
+            raise KeyboardInterrupt()
         results = []
         for i in range(n):
             with _real_open(os.path.join(rdir, "r%d_%d.pkl" % (map_no, i)), "rb") as f:
